@@ -767,7 +767,9 @@ impl ClusterHandler for NocHandler {
                 // scoped to this fabric so a subsequent CASE handshake
                 // to any peer that used to belong to it starts fresh.
                 #[cfg(feature = "case-resumption")]
-                state.resumption.remove_for_fabric(fab_idx);
+                state
+                    .resumption
+                    .remove_for_fabric_persist(fab_idx, ctx.kv())?;
 
                 // Notify that a session was removed
                 ctx.exchange().matter().transport().notify_session_removed();
